@@ -412,6 +412,14 @@ def enumerate_scripts(tier, feed):
                 for seq in itertools.product(['Up', 'Down', 'Enter'], repeat=3):
                     add(tr, 'default', big, dl, ['F3'] + list(seq))
         bound['parts']['depth 4 F3.{Up,Down,Enter}^3 x one_pos x delivery(2)'] = len(out) - n0
+        # a selection that outlives the aircraft: select, let everything expire, act on the stale selection
+        n0 = len(out)
+        for tr in ('one_pos', 'three_mixed'):
+            for sel in (['Down'], ['Down', 'Down'], ['Up']):
+                add(tr, 'default', big, 'separated', ['F3'] + sel + ['Expire'])
+                for after in ('Up', 'Down', 'Enter', 'F1', 'New'):
+                    add(tr, 'default', big, 'separated', ['F3'] + sel + ['Expire', after])
+        bound['parts']['F3.{Down,DownDown,Up}.Expire.{-,Up,Down,Enter,F1,New} x {one_pos,three_mixed}'] = len(out) - n0
     else:
         for tr in TRACKED:
             for dl in ('batched', 'separated'):
